@@ -160,6 +160,9 @@ Apply(s, pc, w) ==
     [] pc.o = "on" -> IF pc.v = 0 THEN ReleaseKey(s, pc.ch, pc.k, FALSE) ELSE NoteOn(s, pc.ch, pc.k, w)
     [] pc.o = "off" -> ReleaseKey(s, pc.ch, pc.k, FALSE)
     [] pc.o = "tick" -> TickFinal(s, pc.us)
+    \* opn2_panic and the calls that rebuild the chips (emulator switch, chip count) cut every note; wheel, bend range, program
+    \* and the other controls of the channels stay as they are
+    [] pc.o \in {"panic", "emu", "chips"} -> [s EXCEPT !.notes = <<>>]
     [] OTHER -> [s EXCEPT !.chans = [i \in 1..32 |-> [s.chans[i] EXCEPT !.ok = FALSE]] \o <<>>, !.notes = <<>>]
 
 \* ------------------------------------------------------------------ judging one recorded write
